@@ -6,13 +6,13 @@ void harness(void)
 {
   ghost_init();
   ghost_child_any();
-  g.cfg_std_fileno[0] = nondet_bool() ? 0 : -1;
-  g.cfg_std_fileno[1] = nondet_bool() ? 1 : -1;
-  g.cfg_std_fileno[2] = nondet_bool() ? 2 : -1;
-  g.cfg_file_fd = nondet_int();
-  __CPROVER_assume(g.cfg_file_fd >= -1 && g.cfg_file_fd < 64);
+  gc.cfg_std_fileno[0] = nondet_bool() ? 0 : -1;
+  gc.cfg_std_fileno[1] = nondet_bool() ? 1 : -1;
+  gc.cfg_std_fileno[2] = nondet_bool() ? 2 : -1;
+  gc.cfg_file_fd = nondet_int();
+  __CPROVER_assume(gc.cfg_file_fd >= -1 && gc.cfg_file_fd < 64);
   static const char path0[] = "some/path";
-  g.cfg_path[0] = path0;
+  gc.cfg_path[0] = path0;
 
 #if defined(RD_init)
   int par = nondet_int(), chi = nondet_int();
@@ -33,7 +33,7 @@ void harness(void)
   int verif_rv = redirect_init(parent, child, stream, redirect, nonblocking, out);
 #include "gen/post_redirect_init.inc"
   if (verif_rv == 0 && RD_T(redirect) == RT_PIPE) V_CANARY("redirect.pipe_reachable");
-  if (verif_rv == 0 && RD_T(redirect) == RT_PARENT && g.cfg_std_fileno[stream] < 0) V_CANARY("redirect.parent_fallback_reachable");
+  if (verif_rv == 0 && RD_T(redirect) == RT_PARENT && gc.cfg_std_fileno[stream] < 0) V_CANARY("redirect.parent_fallback_reachable");
   if (verif_rv == 0 && RD_T(redirect) == RT_PATH) V_CANARY("redirect.path_reachable");
   if (verif_rv == 0 && RD_T(redirect) == RT_FILE) V_CANARY("redirect.file_reachable");
   if (verif_rv < 0) V_CANARY("redirect.failure_reachable");
